@@ -264,7 +264,11 @@ func gen(c *lib.Ctx) {
 			if r.Chance(20) {
 				dr = -dr
 			}
-			drift(c, dr, r.Range(-1<<46, 1<<46)>>uint(r.Intn(30)))
+			if r.Chance(50) {
+				drift(c, dr, r.Range(-1<<46, 1<<46)>>uint(r.Intn(30)))
+			} else { // long intervals with full nanosecond detail (Seconds() rounds twice)
+				drift(c, dr, r.I64()>>uint(r.Intn(24)))
+			}
 		case k < 18: // whole proved range of drift, any duration
 			dr := math.Ldexp(1+float64(r.Range(0, 1<<52))*0x1p-52, int(r.Range(-900, -2)))
 			if r.Chance(50) {
